@@ -139,6 +139,7 @@ func Observe(s string) {
 func Observef(format string, a ...any) { Observe(fmt.Sprintf(format, a...)) }
 
 func Freeze()                     {}
+func Setup(f func())              { f() }
 func BlockedNow() []BlockedG      { return nil }
 func LiveNamed(prefix string) int { return 0 }
 
